@@ -498,9 +498,9 @@ func main() {
 	thorough := *tier == "thorough"
 
 	// ---- D0
-	splitLen := 4
+	splitLen := 5
 	if thorough {
-		splitLen = 5
+		splitLen = 6
 	}
 	m.SplitLen = splitLen
 	var sc []string
@@ -516,10 +516,10 @@ func main() {
 	m.Counts["scases"] = ss.write("scases", "scase", "scase_model_ok", "scase_prop_ok", sc, sj)
 
 	// ---- D1
-	tokLen := 2
-	nGram, nMut := 1500, 500
+	tokLen := 3
+	nGram, nMut := 2000, 800
 	if thorough {
-		tokLen, nGram, nMut = 3, 8000, 3000
+		tokLen, nGram, nMut = 3, 40000, 15000
 	}
 	m.TokenLen = tokLen
 	var pin []string
@@ -571,9 +571,9 @@ func main() {
 			}
 		}
 	}
-	nR := 1500
+	nR := 2500
 	if thorough {
-		nR = 10000
+		nR = 40000
 	}
 	for i := 0; i < nR; i++ {
 		n := r.Intn(5)
@@ -586,9 +586,9 @@ func main() {
 	m.Counts["rcases"] = ss.write("rcases", "rcase", "rcase_model_ok", "rcase_prop_ok", rc, rj)
 
 	// ---- D3 + E
-	nF, nE := 400, 260
+	nF, nE := 1000, 600
 	if thorough {
-		nF, nE = 3000, 2500
+		nF, nE = 15000, 10000
 	}
 	runConfigs(r, nF, nE, ss, &m)
 
